@@ -14,6 +14,63 @@ CLAIMED = {
             "faithful to the netlist.", "DESIGN.md §6 C18"),
 }
 
+CLAIMED.update({
+    "C35": ("Hypothesis + exhaustive enumeration: generator->detector round trip and detector-only corruption streams vs bit-serial CRC-5 reference (pysim)",
+            "Exhaustive over all 256 commands x 7 stall patterns and every single-bit corruption of command word and LCSTART; plus 1.5e4 random sequences (stalls, strobe/held generate, multi-bit/mirrored flips, unequal copies, not-valid words between start and command).",
+            "Not generated: LCSTART directly followed by LCSTART.", "DESIGN.md §6 C35"),
+    "C40": ("Hypothesis packet/gap streams vs independent reference stream parser (pysim)",
+            "6e3/9e4 streams of 1-10 data packets (0-40 bytes, all CRC corruptions, aborted DPPs, not-valid words at any word position incl. around the CRC, adjacent traffic); exactly-once / good-iff-CRCs / after-payload / byte-exact payload.",
+            "Header-corrupt packets judged conservatively (never good, at most one bad); EDB-terminated complete payloads accept either verdict.", "DESIGN.md §6 C40"),
+    "C36": ("Hypothesis packet sequences; wire compared symbol-by-symbol with an independent encoder + round trip through the repo's receivers (pysim, closed-loop producer)",
+            "5e3/8e4 sequences of 1-5 packets, payload 0-64 bytes (every length mod 4), delayed/abort path, held/strobed generate, PHY stalls; framing, CRC-16/5/32 placement, done timing, each payload word consumed once.",
+            "Bubble-free payload producer assumed; receiver reset between packets; pad symbols after EPF not judged.", "DESIGN.md §6 C36"),
+    "C44": ("Hypothesis symbol/enable histories and deadline-targeted event lists vs interval oracles (pysim)",
+            "8e3 idle-handshake histories (valid/not-valid words, enable windows) + 2.5e3 timer histories at 4 clock rates with gaps at K+-2 / R+-2 cycles and a 10 ms long-silence case.",
+            "Safety direction only for the handshake (completion implies the counts); integer-cycle clock rates, not the real 125 MHz constants.", "DESIGN.md §6 C44"),
+    "C17": ("model-based PBT: endpoint-level host BFM, trace oracle (pysim)",
+            "USBSignalInEndpoint at its EndpointInterface over 20 width/endianness configurations; 4e3/5e4 poll/ACK/lost-ACK histories with the signal changing at any time; one-value-per-response, byte order, retry identity, toggle only after ACK.",
+            "Value window = end of IN token .. first transmitted byte; signal_domain='usb' only; response delays 1/2/10 cycles.", "DESIGN.md §6 C17"),
+    "C15": ("model-based PBT: endpoint-level host BFM, per-beat and per-frame oracle (pysim)",
+            "USBIsochronousStreamInEndpoint at its EndpointInterface, mps 8/13/64/1024; 3e3/4e4 frame histories (bytes_in_frame 0..3*mps, 0-4 IN tokens, stream gaps, tx stalls).",
+            "PID label of surplus zero-length packets not asserted (statement silent); bytes_in_frame stable around SOF.", "DESIGN.md §6 C15"),
+    "C11": ("model-based PBT: host toggle reassembly with reactive drain (pysim)",
+            "USBStreamInEndpoint/USBInTransferManager at the EndpointInterface, mps 8/16/64/512; 2.5e3/6e4 histories of input stream (last markers, gaps, flush) x IN tokens, ACK / lost ACK, foreign tokens, tx stalls; exactly-once, packet size, short-packet/ZLP ends, retry identity, NAK when empty.",
+            "discard held low; ACKs addressed to other devices not modelled; tx.ready low during the PID byte (as the real packet generator does).", "DESIGN.md §6 C11"),
+    "C09": ("model-based PBT: request-loop driver vs reference descriptor table (pysim)",
+            "GetDescriptorHandlerBlock / Distributed / Mux as built by StandardRequestHandler (26 fixed configurations) plus Hypothesis-generated collections (one elaboration per case); 3e3/4e4 requests (type,index,wLength, mps 8..64, ready patterns).",
+            "wLength >= 1; unit level (full-device integration is exercised by C07/C57 histories).", "DESIGN.md §6 C09"),
+    "C16": ("model-based PBT: frame parser + in-order subsequence oracle + must-deliver rule (pysim)",
+            "USBIsochronousStreamOutEndpoint at its EndpointInterface, 9 mps/buffer configurations; 2e3/3e4 histories of OUT packets (0..mps, good/corrupt) under consumer back-pressure.",
+            "A whole-packet drop is allowed only when < mps free (2-cycle lag); high-bandwidth PIDs and mps=1024 not covered.", "DESIGN.md §6 C16"),
+    "C13": ("model-based PBT: reactive host toggle model, delivered-stream oracle (pysim)",
+            "USBStreamOutEndpoint at its EndpointInterface, 12 mps/buffer configurations, response delay 1/2/3/10/11 cycles (HS, FS@12 MHz, FS@60 MHz, with/without control-endpoint timer restart); OUT/PING, corrupt CRC, repeated toggles, back-pressure.",
+            "Must-ACK / PING rules with a 2-cycle occupancy lag; clear-halt not covered here (C14).", "DESIGN.md §6 C13"),
+    "C07": ("Hypothesis host programs (abandoned/repeated/interleaved control transfers) on a full USBDevice over UTMI; Python host BFM vs independent host-visible device model (pysim)",
+            "1.5e3/3e4 histories of 1-10 control transfers with abandonment after any transaction, lost ACKs, early status, other-endpoint traffic between stages; every response compared (stage, PID, payload).",
+            "FS bare-UTMI device only; valid request forms; no corrupted packets (C06); no PING to ep0.", "DESIGN.md §6 C07"),
+    "C08": ("same full-device harness; SET_ADDRESS/SET_CONFIGURATION histories with foreign ACKs, lost status ACKs, bus resets; address probes + GET_CONFIGURATION",
+            "1.5e3/3e4 histories; the commit must occur exactly at the host ACK of that request's status ZLP; bus reset returns to 0/0.",
+            "One device on the bus; reset = SE0 >= 305 cycles on the 12 MHz device; toggles across reset unspecified.", "DESIGN.md §6 C08"),
+    "C10": ("same full-device harness; arbitrary 8-byte setup packets + observation traffic vs device model",
+            "1e3/3e4 histories; unsupported => STALL at first data-stage IN or status, no data / ACK / state change.",
+            "Implemented request codes only in their valid form; state change observed through later traffic.", "DESIGN.md §6 C10"),
+    "C14": ("same full-device harness; bulk IN/OUT + CLEAR_FEATURE histories vs per-endpoint toggle model and delivered-stream check",
+            "1e3/2e4 histories; toggles advance once per completed transaction; a completed clear-halt resets exactly the named endpoint/direction.",
+            "No bad-CRC OUT packets; signal-endpoint toggle after clear-halt not asserted; overflow ACK/NAK left to C13.", "DESIGN.md §6 C14"),
+    "C20": ("same full-device harness; legal host + tx_ready patterns; UTMI transmit-burst monitor + model equality of data packets",
+            "1.5e3/3e4 histories; every burst is a valid handshake or CRC-correct data packet of the addressed endpoint, solicited, not during reception.",
+            "Only transmitted packets are judged (missing/different handshakes belong to C07-C14); a run stops at the first model divergence; FS-only device never chirps.", "DESIGN.md §6 C20"),
+    "C12": ("metamorphic non-interference: full history vs re-run with the other endpoints' transactions replaced by equal idle time (full device, pysim)",
+            "600/1e4 cases x up to 3 re-runs; per-endpoint responses, toggles and delivered streams must be identical.",
+            "Device address fixed, no CLEAR_FEATURE inside the compared histories; up to 3 endpoints compared per case.", "DESIGN.md §6 C12"),
+    "C57": ("full-device host BFM against USBSerialDevice; device model specialised with independently built ACM descriptors",
+            "320/8e3 histories (enumeration order permutations, CDC requests, rx/tx data under back-pressure).",
+            "FS only; SET_LINE_CODING in its valid form only.", "DESIGN.md §6 C57"),
+})
+
+# Only checks listed here are claimed in MANIFEST.json (verified quiet on the current tree, sensitive to their mutants).
+READY = ["C18"]
+
 NOT_BUILT_REASON = "check not built yet (work in progress; see DESIGN.md §6 for the planned generator/oracle)"
 
 
@@ -23,7 +80,7 @@ def build():
     na = []
     for p in props:
         pid = p["id"]
-        if pid in CLAIMED and os.path.exists(os.path.join(VERIF_DIR, "lunaverif", "props", pid.lower() + ".py")):
+        if pid in CLAIMED and pid in READY and os.path.exists(os.path.join(VERIF_DIR, "lunaverif", "props", pid.lower() + ".py")):
             tech, text, note, ref = CLAIMED[pid]
             checks.append(dict(
                 property_id=pid,
